@@ -42,7 +42,9 @@ fn sweep_pairs(ctx: &'static Ctx, name: &str, n: u64, pairs_every: u64, case: im
 	if std::env::var("C15_ONLY").is_ok_and(|only| only != name) {
 		return Stats::new();
 	}
-	let st = (0..n).into_par_iter().fold(Stats::new, |mut st, idx| {
+	// development aid: C15_CASE=<index> (with C15_ONLY) runs that one case of the space
+	let one: Option<u64> = std::env::var("C15_CASE").ok().and_then(|v| v.parse().ok());
+	let st = (one.unwrap_or(0)..one.map_or(n, |i| i + 1)).into_par_iter().fold(Stats::new, |mut st, idx| {
 		if let Some((label, input)) = case(idx) {
 			let label = format!("{name}/{idx}: {label}");
 			if idx == 7 {
@@ -228,11 +230,13 @@ fn main() {
 	let relay_modes: &[Calamus] = ctx.tier.pick(&CALAMI_RELAY[..2], &CALAMI_RELAY[..]);
 	let relay_absent: &[[bool; 5]] = ctx.tier.pick(&absent_sets[..1], &absent_sets[..]);
 	{
-		let dims = [2, 4, 2, NAME_ATS_RELAY.len(), ent_sets.len(), relay_modes.len(), relay_absent.len()];
+		// (the unflagged compatible synthetic here, the flagged bridge in the next space: the kind of candidate decides
+		// whether there is a pair, not where its name comes from)
+		let dims = [4, 2, NAME_ATS_RELAY.len(), ent_sets.len(), relay_modes.len(), relay_absent.len()];
 		let n = vcore::enumerate::Product::size(&dims);
 		run("relay-named-entries", sweep_pairs(ctx, "relay-named-entries", n, (NAME_ATS_RELAY.len() * ent_sets.len() * relay_modes.len() * relay_absent.len()) as u64, |idx| {
 			let v = product_nth(&dims, idx);
-			relay_spec(&kinds_all[v[0]], v[1], v[2] == 1, Decl::AtOwner, NAME_ATS_RELAY[v[3]], ent_sets[v[4]], relay_modes[v[5]], relay_absent[v[6]])
+			relay_spec(&kinds_all[1], v[0], v[1] == 1, Decl::AtOwner, NAME_ATS_RELAY[v[2]], ent_sets[v[3]], relay_modes[v[4]], relay_absent[v[5]])
 		}));
 	}
 	// named class entries of [p/C, p/B, p/A, p/I, p/I0] in this space: everything present, the lowest one / two / three
@@ -326,8 +330,8 @@ fn main() {
 			"arity_2_space": format!("{} signatures × synthetic {:?} × bridge flag {:?} × modifiers {:?} × calls {:?} × delegate name", sigs2.len(), syn2, flag2, mods2, calls2),
 			"arity_delta_space": "parameter shapes over {equal-primitive, equal-class, erased-to-object}^(1..2) × return {void, equal-class, erased-to-object} × delta {+1, -1, 0} × synthetic × bridge flag × delegate name × delegate owner",
 			"mapping_state_space": format!("{} candidate kinds × {} (level, placement) shapes × {} (delegate owner, name) × A-super 3 × interface {} × name location {:?} × delegate entry {:?} × class entry {:?} × calamus {:?}", kinds.len(), shapes.len(), owner_names.len(), ifaces.len(), NAME_ATS, DELEGATE_ENTRIES, CLASS_ENTRIES, CALAMI),
-			"relay_named_entries_space": format!("bridge in p/D over p/A <- p/B <- p/C <- p/D: 2 candidate kinds × interface p/I on the class 0..3 levels above p/D × p/I extends p/I0 {{no, yes}} × name location {:?} × class entry of [p/C, p/B, p/A, p/I, p/I0] in the named mappings {:?}^5 × calamus {:?} × {} subsets of [p/C, p/B, p/A, p/I, p/I0] without calamus entry (cases that differ only in something about an absent p/I0 are generated once)", NAME_ATS_RELAY, ENTS, relay_modes, relay_absent.len()),
-			"relay_calamus_entries_space": format!("same worlds: {} candidate kinds × interface position 0..3 × p/I0 {{no, yes}} × delegate declared {:?} × name location {:?} × named class entries {:?} × calamus {:?} × all 32 subsets of [p/C, p/B, p/A, p/I, p/I0] without calamus entry", relay_kinds, relay_decls, NAME_ATS_RELAY, uniform_ents, CALAMI_RELAY),
+			"relay_named_entries_space": format!("bridge (unflagged compatible synthetic) in p/D over p/A <- p/B <- p/C <- p/D: interface p/I on the class 0..3 levels above p/D × p/I extends p/I0 {{no, yes}} × name location {:?} × class entry of [p/C, p/B, p/A, p/I, p/I0] in the named mappings {:?}^5 × calamus {:?} × {} subsets of [p/C, p/B, p/A, p/I, p/I0] without calamus entry (cases that differ only in something about an absent p/I0 are generated once)", NAME_ATS_RELAY, ENTS, relay_modes, relay_absent.len()),
+			"relay_calamus_entries_space": format!("same worlds: {} candidate kinds (flagged bridge; unflagged compatible synthetic) × interface position 0..3 × p/I0 {{no, yes}} × delegate declared {:?} × name location {:?} × named class entries {:?} × calamus {:?} × all 32 subsets of [p/C, p/B, p/A, p/I, p/I0] without calamus entry", relay_kinds, relay_decls, NAME_ATS_RELAY, uniform_ents, CALAMI_RELAY),
 			"two_candidate_space": "mode {same delegate, different delegates, chain} × class of each candidate {A,B,C}² × kind {flagged, unflagged, not synthetic}² × name of first {own, in A, nowhere} × name of second {own, nowhere} × first class absent × delegate already named",
 			"javac_corpus": "the vendored javac-17 corpus (main, main8, main11) as main jar × naming scheme {every synthetic named directly, only ordinary methods with a bridge's signature named, nothing named} × calamus {identity, empty}",
 			"signatures_arity_0_1": sigs01.len(),
